@@ -134,16 +134,28 @@ def c_exp6(case, ctx):
     close(T[:3, 3], Tor[:3, 3], tol(vs, th), "MatrixExp6 translation vs oracle")
 
 
+def _lib_acosinput(R):
+    """(trace-1)/2 evaluated with the same operations, in the same order, as the library does on
+    the SAME input matrix (so it is bit-identical): tells which logarithm branch the input selects."""
+    tr = 0
+    for i in range(3):
+        tr = tr + float(R[i, i])
+    return (tr - 1) / 2.0
+
+
 def near_pi_region(case, message):
-    """Open known finding: log of a rotation within 2e-5 of a half turn."""
+    """Open known finding C01-near-pi-log: the GENERIC branch of the logarithm (theta/(2 sin theta)
+    formula) within 2e-5 of a half turn.  Inputs that select the exact-half-turn branch
+    ((trace-1)/2 <= -1 on the matrix handed in) are NOT in the region: that branch must be right."""
     for key in ("w", "V"):
         if key in case:
             th = float(np.linalg.norm(np.asarray(case[key])[:3]))
             if abs(th - math.pi) < 2e-5 and th < math.pi:
                 return "near_pi_log"
     if "T" in case:
-        th = O.angle(np.asarray(case["T"])[:3, :3])
-        if math.pi - th < 2e-5:
+        R = np.asarray(case["T"])[:3, :3]
+        th = O.angle(R)
+        if math.pi - th < 2e-5 and _lib_acosinput(R) > -1:
             return "near_pi_log"
     return None
 
@@ -280,9 +292,9 @@ def _tw(vmax):
 CLAUSES = [
     Clause("exp3_proper_rotation", c_exp3, st.fixed_dictionaries({"w": G.rotvecs()}), 2000, 20000),
     Clause("exp6_proper_rigid", c_exp6, st.fixed_dictionaries({"V": G.twists()}), 2000, 20000),
-    Clause("log3_of_exp3", c_log_exp3, st.fixed_dictionaries({"w": G.rotvecs()}), 2000, 20000,
+    Clause("log3_of_exp3", c_log_exp3, st.fixed_dictionaries({"w": G.rotvecs(ang=G.angles_lt_pi())}), 2000, 20000,
            region=near_pi_region),
-    Clause("log6_of_exp6", c_log_exp6, st.fixed_dictionaries({"V": G.twists()}), 2000, 20000,
+    Clause("log6_of_exp6", c_log_exp6, st.fixed_dictionaries({"V": G.twists(ang=G.angles_lt_pi())}), 2000, 20000,
            region=near_pi_region),
     Clause("exp_of_log", c_exp_log6, st.fixed_dictionaries({"T": G.se3s()}), 2000, 20000,
            region=near_pi_region),
